@@ -349,3 +349,26 @@ pub enum ZE {
     B(u8),
     C { x: u16, y: bool },
 }
+
+/// definitions produced by `macro_rules!`: the field type reaches the derive
+/// through a `$t:ty` fragment (an invisible group around the parameter)
+macro_rules! gen_named {
+    ($name:ident, $p:ident, $fty:ty) => {
+        #[derive(Epserde, Debug, Clone, PartialEq, Eq)]
+        pub struct $name<$p> {
+            pub a: $fty,
+            pub n: u8,
+        }
+    };
+}
+gen_named!(GMac, T, T);
+macro_rules! gen_enum {
+    ($name:ident, $p:ident, $fty:ty) => {
+        #[derive(Epserde, Debug, Clone, PartialEq, Eq)]
+        pub enum $name<$p> {
+            None,
+            One($fty),
+        }
+    };
+}
+gen_enum!(GMacE, T, T);
